@@ -466,22 +466,24 @@ def _do_rewrite(source: str, rewrite: _Rewrite, *, fix_function_name: str = "") 
     indent = getattr(old, "col_offset", getattr(new, "col_offset", 0))
     indents = {**{i: indent for i in range(len(lines))}, 0: len(code) - len(code.lstrip(" "))}
 
+    literal_line_ends = set()
     try:
         new_code_ast = core.parse(new_code)
     except SyntaxError:
         pass  # new_code is not necessarily valid python syntax in all cases
     else:
-        for node in core.walk(new_code_ast, (ast.Constant(value=str), ast.JoinedStr)):
-            node_code = core.get_code(node, new_code)
-            if any(
-                node_code.startswith(prefix) and node_code.endswith(prefix[-3:])
-                for prefix in ("b'''", "r'''", "f'''", "'''", 'b"""', 'r"""', 'f"""', '"""')
-            ):
+        for node in core.walk(new_code_ast, (ast.Constant(value=(str, bytes)), ast.JoinedStr)):
+            if node.end_lineno > node.lineno:
+                # A string of several lines, whatever its prefix and quotes are. The lines after
+                # its first one start inside it, and all but its last one end inside it.
                 for lineno in range(node.lineno, node.end_lineno):
                     indents[lineno] = 0
+                literal_line_ends.update(range(node.lineno - 1, node.end_lineno - 1))
 
     new_code = "".join(
-        f"{' ' * indents[i]}{code}".rstrip() + ("\n" if code.endswith("\n") else "")
+        f"{' ' * indents[i]}{code}"
+        if i in literal_line_ends
+        else f"{' ' * indents[i]}{code}".rstrip() + ("\n" if code.endswith("\n") else "")
         for i, code in enumerate(lines)
     )
 
